@@ -31,11 +31,23 @@ var vC07BodyKinds = []vBodyKind{
 func HBodyError() {
 	k := vC07BodyKinds[vInt("kind", 0, len(vC07BodyKinds)-1)]
 	place := vInt("place", 0, 2)
-	bad := vByte("bad")
-	vAssume(bad == '?' || bad == '%' || bad == '&' || bad == '~')
+	mode := vParam("mode", 0)
+	bad := byte('?')
+	if mode == 0 {
+		bad = vByte("bad")
+		vAssume(bad == '?' || bad == '%' || bad == '&' || bad == '~')
+	}
 	which := vInt("which", 0, 1)
 	props := []string{"\"a\": 1", "\"b\": 2"}
-	props[which] = props[which][:5] + string([]byte{bad})
+	needle := string([]byte{bad})
+	if mode == 1 {
+		// a well-formed body with a reference to a type that does not exist: reported
+		// when the catalog is compiled, not by the scanner
+		z := vByte("z")
+		vAssume(z == 'y' || z == 'Z' || z == '7')
+		needle = "@z" + string([]byte{z})
+	}
+	props[which] = props[which][:5] + needle
 	body := "{\n  " + props[0] + ",\n  " + props[1] + "\n}\n"
 	block := k.before + vIndent(body, k.indent) + k.after
 	head := "JSIGHT 0.3\nTYPE @ok any\n"
@@ -56,7 +68,12 @@ func HBodyError() {
 	}
 	_, je := vBuildProject(root, files)
 	vAssert(je != nil, "c07-invalid-body-accepted")
-	want := strings.IndexByte(holderText, bad)
+	want := strings.Index(holderText, needle)
+	if mode == 1 && strings.Contains(k.before, "  Path\n") {
+		// the path-variable checks inspect the referenced types after all bodies were compiled
+		// and report at the keyword of the Path directive
+		want = strings.Index(holderText, "Path\n")
+	}
 	vAssert(strings.HasSuffix(je.File.Name(), "/"+holder), "c07-body-error-in-wrong-file")
 	vAssert(int(je.Index) == want, "c07-body-error-index")
 	vAssert(int(je.Line) == vLineOf(holderText, want), "c07-body-error-line")
